@@ -104,7 +104,7 @@ theorem auth_step (s s' : St) (a : Act) (ha : a.authOf = none) (hs : step s a = 
   | force c =>
     simp only [step] at hs; split at hs <;> simp at hs; subst hs
     exact key c _ ⟨rfl, rfl⟩
-  | sched c now r e p =>
+  | sched c now i =>
     simp only [step] at hs
     split at hs
     · split at hs
@@ -183,10 +183,10 @@ theorem rel_known_irrel (s : St) (sp : SpecSt) (k : List (Nat × Bool)) (h : Rel
   ⟨h.inv, h.flight, h.max, h.nodup, h.mem, h.len⟩
 
 /-- an action that changes no `execs` keeps the relation (the specification state does not move) -/
-theorem rel_same_hx (s s' : St) (sp : SpecSt) (a : Act) (h : Rel s sp) (hp : a.isPassive = false)
+theorem rel_same_hx (s s' : St) (sp : SpecSt) (a : Act) (h : Rel s sp)
     (hs : step s a = some s') (hx : ∀ c, (s'.chk c).execs = (s.chk c).execs) (he : s'.executing = s.executing) :
     Rel s' sp :=
-  ⟨inv_step s s' a h.inv hs, flight_step s s' a hp h.flight hs, by rw [h.max, (step_n_max s s' a hs).2],
+  ⟨inv_step s s' a h.inv hs, flight_step s s' a h.flight hs, by rw [h.max, (step_n_max s s' a hs).2],
    h.nodup, fun c => by rw [hx c]; exact h.mem c, by rw [he]; exact h.len⟩
 
 /-- replacing checkable `c` by a state with the same `hx` changes no `hx` and not the number of executions -/
@@ -272,9 +272,17 @@ theorem krel_write (s : St) (sp : SpecSt) (c : Nat) (x : Chk) (hk : KRel s sp) :
     have := hk i b hb
     simp only [St.upd, hic, if_false]; exact this
 
-/-- **one step**: the observations of an enabled, non-passive action pass the specification and the relation
+/-- the scheduler's decision, as the model takes it from the recorded facts, satisfies the three decision clauses: a forced
+    check is never skipped, an eligible one is never skipped, an ineligible unforced one is never executed -/
+theorem decision_ok (sp : SpecSt) (c : Nat) (f : Bool) (i : SkipIn) :
+    specStep sp (Ev.decision c f (Chk.skipsIn f i)
+      (eligible i.isService i.own i.hostChecks i.svcChecks i.inPeriod i.depOk)) = none := by
+  obtain ⟨a, b, d, e, g, h⟩ := i
+  cases f <;> cases a <;> cases b <;> cases d <;> cases e <;> cases g <;> cases h <;> rfl
+
+/-- **one step**: the observations of an enabled action pass the specification and the relation
     is re-established for the specification state after them. -/
-theorem rel_step (s s' : St) (sp : SpecSt) (a : Act) (h : Rel s sp) (hk : KRel s sp) (hp : a.isPassive = false)
+theorem rel_step (s s' : St) (sp : SpecSt) (a : Act) (h : Rel s sp) (hk : KRel s sp)
     (hs : step s a = some s') :
     specTrace sp (obsStep s a s') = none ∧ Rel s' (specRun sp (obsStep s a s')) := by
   have hinv' := inv_step s s' a h.inv hs
@@ -285,26 +293,26 @@ theorem rel_step (s s' : St) (sp : SpecSt) (a : Act) (h : Rel s sp) (hk : KRel s
       specTrace sp (obsStep s a s') = none ∧ Rel s' (specRun sp (obsStep s a s')) := by
     intro hx he hq
     have := specTrace_quiet sp _ hq
-    exact ⟨this.1, by rw [this.2]; exact rel_same_hx s s' sp a h hp hs hx he⟩
+    exact ⟨this.1, by rw [this.2]; exact rel_same_hx s s' sp a h hs hx he⟩
   cases a with
   | setActive c b =>
     have hs0 := hs
     simp only [step] at hs; split at hs <;> simp at hs; subst hs
     have := same_hx_upd s c ((s.chk c).setActive b) (by assumption) rfl
     exact ⟨by simp [obsStep, specTrace, specStep],
-      rel_known_irrel _ _ _ (rel_same_hx s _ sp _ h hp hs0 this.1 this.2)⟩
+      rel_known_irrel _ _ _ (rel_same_hx s _ sp _ h hs0 this.1 this.2)⟩
   | setPaused c b =>
     have hs0 := hs
     simp only [step] at hs; split at hs <;> simp at hs; subst hs
     have := same_hx_upd s c ((s.chk c).setPaused b) (by assumption) rfl
     exact ⟨by simp [obsStep, specTrace, specStep],
-      rel_known_irrel _ _ _ (rel_same_hx s _ sp _ h hp hs0 this.1 this.2)⟩
+      rel_known_irrel _ _ _ (rel_same_hx s _ sp _ h hs0 this.1 this.2)⟩
   | objectHandler c =>
     have hs0 := hs
     simp only [step] at hs; split at hs <;> simp at hs; subst hs
     have := same_hx_upd s c (s.chk c).objectHandler (by assumption)
       (by unfold Chk.execs Chk.objectHandler Chk.idleInsert; grind)
-    have hrel : Rel (s.upd c (s.chk c).objectHandler) sp := rel_same_hx s _ sp _ h hp hs0 this.1 this.2
+    have hrel : Rel (s.upd c (s.chk c).objectHandler) sp := rel_same_hx s _ sp _ h hs0 this.1 this.2
     -- after the handler the specification knows `c`'s responsibility; the membership it then sees agrees with it
     have hk1 := krel_objectHandler s sp c hk
     have hloc := loc_ok (s.upd c (s.chk c).objectHandler)
@@ -342,7 +350,7 @@ theorem rel_step (s s' : St) (sp : SpecSt) (a : Act) (h : Rel s sp) (hk : KRel s
     simp only [step] at hs; split at hs <;> simp at hs; subst hs
     have := same_hx_upd s c (s.chk c).force (by assumption) rfl
     exact quiet this.1 this.2 (by simp [obsStep])
-  | sched c now r e p =>
+  | sched c now i =>
     have hs0 := hs
     simp only [step] at hs
     split at hs
@@ -358,9 +366,8 @@ theorem rel_step (s s' : St) (sp : SpecSt) (a : Act) (h : Rel s sp) (hk : KRel s
         simp only [obsStep, hsk, if_true, List.nil_append, List.mem_cons, List.mem_nil_iff, or_false] at hev
         rcases hev with rfl | rfl
         · refine ⟨rfl, ?_⟩
-          have : (s.chk c).forced = false := by
-            unfold Chk.skips at hsk; cases hf : (s.chk c).forced <;> simp_all
-          simp [specStep, this]
+          have hd := decision_ok sp c (s.chk c).forced i
+          rw [hsk] at hd; exact hd
         · exact loc_ok _ sp hinv' (hk' rfl) c
       · rename_i hsk
         simp at hs; subst hs
@@ -369,14 +376,15 @@ theorem rel_step (s s' : St) (sp : SpecSt) (a : Act) (h : Rel s sp) (hk : KRel s
         have he' : ({ s.upd c (s.chk c).pick with counter := s.counter + 1 } : St).executing = s.executing := hsame.2
         refine quiet hx' he' ?_
         intro ev hev
-        have hsk' : Chk.skips (s.chk c).forced r e p = false := by simpa using hsk
+        have hsk' : Chk.skipsIn (s.chk c).forced i = false := by simpa using hsk
         simp only [obsStep, hsk', Bool.false_eq_true, if_false, List.cons_append, List.nil_append, List.mem_cons,
           List.mem_nil_iff, or_false] at hev
         rcases hev with rfl | rfl | rfl
         · refine ⟨rfl, ?_⟩
           simp [specStep, hnn, hcnt]
         · refine ⟨rfl, ?_⟩
-          simp [specStep]
+          have hd := decision_ok sp c (s.chk c).forced i
+          rw [hsk'] at hd; exact hd
         · exact loc_ok _ sp hinv' (hk' rfl) c
     · simp at hs
   | helperGuard c =>
@@ -406,7 +414,7 @@ theorem rel_step (s s' : St) (sp : SpecSt) (a : Act) (h : Rel s sp) (hk : KRel s
           rw [h.max]; omega
         simp [hle]
       · simp only [obsStep, hrun, Bool.false_eq_true, if_false, specRun, List.foldl, specNext]
-        refine ⟨hinv', flight_step s _ _ hp h.flight hs0, (by show sp.max = s.max; exact h.max), ?_, ?_, ?_⟩
+        refine ⟨hinv', flight_step s _ _ h.flight hs0, (by show sp.max = s.max; exact h.max), ?_, ?_, ?_⟩
         · exact List.nodup_cons.2 ⟨hnotmem, h.nodup⟩
         · intro i
           simp only [List.mem_cons, St.upd]
@@ -422,7 +430,7 @@ theorem rel_step (s s' : St) (sp : SpecSt) (a : Act) (h : Rel s sp) (hk : KRel s
     simp only [step] at hs; split at hs <;> simp at hs; subst hs
     rename_i hg
     have he := result_ends _ (h.flight c) hg.2
-    exact rel_exec_end s sp c (s.chk c).result hg.1 h hinv' (flight_step s _ _ hp h.flight hs0) he.1 he.2
+    exact rel_exec_end s sp c (s.chk c).result hg.1 h hinv' (flight_step s _ _ h.flight hs0) he.1 he.2
   | spawn c =>
     have hs0 := hs
     simp only [step] at hs; split at hs <;> simp at hs; subst hs
@@ -442,14 +450,18 @@ theorem rel_step (s s' : St) (sp : SpecSt) (a : Act) (h : Rel s sp) (hk : KRel s
     simp only [step] at hs; split at hs <;> simp at hs; subst hs
     rename_i hg
     have he := procExit_ends _ (h.flight c) hg.2
-    exact rel_exec_end s sp c (s.chk c).procExit hg.1 h hinv' (flight_step s _ _ hp h.flight hs0) he.1 he.2
+    exact rel_exec_end s sp c (s.chk c).procExit hg.1 h hinv' (flight_step s _ _ h.flight hs0) he.1 he.2
   | procResult c =>
     have hs0 := hs
     simp only [step] at hs; split at hs <;> simp at hs; subst hs
     rename_i hg
     have := same_hx_upd s c (s.chk c).procResult hg.1 rfl
     exact quiet this.1 this.2 (by simp [obsStep])
-  | passiveResult c => simp [Act.isPassive] at hp
+  | passiveResult c =>
+    have hs0 := hs
+    simp only [step] at hs; split at hs <;> simp at hs; subst hs
+    have := same_hx_upd s c (s.chk c).passiveResult (by assumption) rfl
+    exact quiet this.1 this.2 (by simp [obsStep])
   | helperDec c =>
     have hs0 := hs
     simp only [step] at hs; split at hs <;> simp at hs; subst hs
@@ -527,26 +539,61 @@ theorem krel_step (s s' : St) (sp : SpecSt) (a : Act) (hk : KRel s sp) (hs : ste
       exact specRun_known _ [locOf (s.upd c (s.chk c).objectHandler) c] (by intro e he; simp at he; subst he; rfl)
     | _ => simp [Act.authOf] at hauth
 
+theorem sumTo_zero (n : Nat) (f : Nat → Int) (h : ∀ i, i < n → f i = 0) : sumTo n f = 0 := by
+  induction n with
+  | zero => rfl
+  | succ k ih => simp only [sumTo]; rw [ih (fun i hi => h i (by omega)), h k (by omega)]; rfl
+
+/-- a checkable with nothing in flight holds no unit of the counter -/
+theorem settled_units (x : Chk) (h : ChkInv x) (hs : x.settled = true) : x.units = 0 := by
+  unfold Chk.settled Chk.helpers at hs
+  unfold ChkInv at h
+  unfold Chk.units
+  simp only [Bool.and_eq_true, beq_iff_eq] at hs
+  obtain ⟨⟨h1, h2⟩, _⟩ := hs
+  have := h.2.2.2.1
+  omega
+
+/-- when nothing is in flight anywhere, every concurrency slot has been given back -/
+theorem settled_counter (s : St) (h : Inv s) (hs : s.settled = true) : s.counter = 0 := by
+  rw [h.2.1]
+  apply sumTo_zero
+  intro i hi
+  unfold St.settled at hs
+  rw [List.all_eq_true] at hs
+  exact settled_units _ (h.1 i) (hs i (List.mem_range.2 hi))
+
 /-- the quiescent snapshot of an invariant state passes -/
 theorem quiescent_ok (s : St) (sp : SpecSt) (h : Inv s) : specTrace sp (quiescentObs s) = none := by
   refine (specTrace_quiet sp _ ?_).1
   intro e he
-  simp only [quiescentObs, List.mem_filterMap, List.mem_range] at he
-  obtain ⟨c, _, hc⟩ := he
-  split at hc
-  · rename_i hsync
-    simp at hc; subst hc
-    refine ⟨rfl, ?_⟩
-    obtain ⟨h1, h2, h3, _⟩ := h.1 c
-    simp only [Bool.and_eq_true] at hsync
-    have h2' := h2 hsync.1
-    have h3' := h3 hsync.2
-    unfold specStep
-    cases hi : (s.chk c).inIdle <;> cases hp : (s.chk c).inPending <;> cases hsc : (s.chk c).schedulable <;> simp_all
-  · simp at hc
+  simp only [quiescentObs, List.mem_append, List.mem_filterMap, List.mem_range] at he
+  rcases he with he | he
+  · obtain ⟨c, _, hc⟩ := he
+    split at hc
+    · rename_i hsync
+      simp at hc; subst hc
+      refine ⟨rfl, ?_⟩
+      obtain ⟨h1, h2, h3, _, h5⟩ := h.1 c
+      simp only [Bool.and_eq_true, beq_iff_eq] at hsync
+      have h2' := h2 hsync.1.1
+      have h3' := h3 hsync.1.2
+      have hnp : (s.chk c).inPending = false := by
+        cases hp : (s.chk c).inPending
+        · rfl
+        · have := h5 hp; unfold Chk.helpers at hsync; omega
+      unfold specStep
+      cases hi : (s.chk c).inIdle <;> cases hsc : (s.chk c).schedulable <;> simp_all
+    · simp at hc
+  · split at he
+    · rename_i hset
+      simp at he; subst he
+      refine ⟨rfl, ?_⟩
+      simp [specStep, settled_counter s h hset]
+    · simp at he
 
 theorem rel_run (acts : List Act) (s : St) (sp : SpecSt) (tr : List Ev) (h : Rel s sp) (hk : KRel s sp)
-    (hp : ∀ a ∈ acts, a.isPassive = false) (ht : traceOf s acts = some tr) : specTrace sp tr = none := by
+    (ht : traceOf s acts = some tr) : specTrace sp tr = none := by
   induction acts generalizing s sp tr with
   | nil =>
     simp only [traceOf, Option.some.injEq] at ht; subst ht
@@ -559,9 +606,9 @@ theorem rel_run (acts : List Act) (s : St) (sp : SpecSt) (tr : List Ev) (h : Rel
       | none => simp [hrest] at ht
       | some tr1 =>
         simp [hrest] at ht; subst ht
-        have hstep := rel_step s s1 sp a h hk (hp a List.mem_cons_self) hs1
+        have hstep := rel_step s s1 sp a h hk hs1
         exact specTrace_append sp _ _ hstep.1
-          (ih s1 _ tr1 hstep.2 (krel_step s s1 sp a hk hs1) (fun b hb => hp b (List.mem_cons_of_mem _ hb)) hrest)
+          (ih s1 _ tr1 hstep.2 (krel_step s s1 sp a hk hs1) hrest)
     · simp at ht
 
 end Icinga.C04
